@@ -16,8 +16,8 @@ Model of the control-variate path of the multilevel engine (payoff dimension 1, 
   are read from the *adjusted* arrays when control variates are configured.
 
 The regression kernel (`np.cov` + guard + `np.linalg.pinv`, product.py:198-227) is a parameter `coef` of the scripted process:
-the bookkeeping theorems hold for every kernel; `coef1` is the exact one-control kernel (`Stats.bStar`), `Stats.coef2` (used by
-the driver for two controls) the exact two-control one.  Pad rows / `np.empty` rows read as 0 (the theorems show they are never read).
+the bookkeeping theorems hold for every kernel; `coef1` is the exact one-control kernel (`Stats.kernel1` = `Stats.bStar`), `Stats.kernel2`
+(used by the driver for two controls) the exact two-control one.  Pad rows / `np.empty` rows read as 0 (the theorems show they are never read).
 Mathlib-free, executable.
 -/
 import RpylibModel.Model.Mlmc
@@ -59,15 +59,19 @@ def xCol (fine : Bool) (xrows : List CRow) : Nat → Nat → Rat := fun j i =>
   | none => 0
   | some cs => if fine then (cs.getD j ⟨0, 0⟩).fine else (cs.getD j ⟨0, 0⟩).coarse
 
+/-- the coefficient vector `b_star` is computed once per (level, column) and then used for every row: its first k values -/
+def coefList (c : CvProc) (n : Nat) (x : Nat → Nat → Rat) (y : Nat → Rat) : List Rat := (List.range c.k).map (c.coef n x y)
+
 /-- `helper_compute_coefficients`: `y − b · (x − prices)` with `b` from the kernel on all `n` rows -/
-def adjustCol (c : CvProc) (n : Nat) (x : Nat → Nat → Rat) (y : Nat → Rat) : Nat → Rat :=
-  Stats.adjustK c.k (c.coef n x y) c.price x y
+def adjustCol (c : CvProc) (b : List Rat) (x : Nat → Nat → Rat) (y : Nat → Rat) : Nat → Rat :=
+  Stats.adjustK c.k (fun j => b.getD j 0) c.price x y
 
 /-- the array `compute_coefficients_mlmc` stores: one row per row of the payoff array -/
 def computeAdj (c : CvProc) (rows : List Row) (xrows : List CRow) : List Row :=
+  let bf := coefList c rows.length (xCol true xrows) (yCol rowFine rows)
+  let bc := coefList c rows.length (xCol false xrows) (yCol rowCoarse rows)
   (List.range rows.length).map (fun i =>
-    some ⟨adjustCol c rows.length (xCol true xrows) (yCol rowFine rows) i,
-          adjustCol c rows.length (xCol false xrows) (yCol rowCoarse rows) i⟩)
+    some ⟨adjustCol c bf (xCol true xrows) (yCol rowFine rows) i, adjustCol c bc (xCol false xrows) (yCol rowCoarse rows) i⟩)
 
 /-- one pass of level l on the control side (`lv` = the payoff record *before* the pass, `rows` = the payoff array after it) -/
 def passCv (c : CvProc) (l : Nat) (lv : Lvl) (rows : List Row) (cl : CvLvl) : CvLvl :=
@@ -92,9 +96,16 @@ def StepCv.base : StepCv → Step
   | .cont s => .cont s.base
   | .ret s => .ret s.base
 
+/-- per-level records held as evaluated data for the levels listed, `g` elsewhere (executable form of a finite update) -/
+def fromList (l : List CvLvl) (g : Nat → CvLvl) : Nat → CvLvl := fun i =>
+  match l[i]? with
+  | some x => x
+  | none => g i
+
 def cvAfterPasses (p : Proc) (c : CvProc) (s : CvSt) : CvSt :=
-  { base := afterPasses p s.base
-    cv := fun l => if l ≤ s.base.L then passCv c l (s.base.lv l) (passLvl p l (s.base.lv l)).rows (s.cv l) else s.cv l }
+  let l := (List.range (s.base.L + 1)).map
+    (fun l => passCv c l (s.base.lv l) (passLvl p l (s.base.lv l)).rows (s.cv l))
+  { base := afterPasses p s.base, cv := fromList l s.cv }
 
 def cvSetDN (Ns : List Nat) (s : CvSt) : CvSt := { s with base := setDN Ns s.base }
 
@@ -102,17 +113,21 @@ def cvAddLevel (s : CvSt) : CvSt :=
   { base := addLevel s.base, cv := fun l => if l = s.base.L + 1 then ⟨[], [], false⟩ else s.cv l }
 
 def cvExtendAll (s : CvSt) : CvSt :=
-  { base := extendAll s.base, cv := fun l => if l ≤ s.base.L then extendCv (s.base.lv l) (s.cv l) else s.cv l }
+  let l := (List.range (s.base.L + 1)).map (fun l => extendCv (s.base.lv l) (s.cv l))
+  { base := extendAll s.base, cv := fromList l s.cv }
 
 def cvLoopHead (s : CvSt) : StepCv := if sumDN s.base > 0 then .cont s else .ret s
 
-/-- one iteration of the `while` loop of `Engine.price` with control variates configured -/
-def iterCv (p : Proc) (c : CvProc) (o : Oracle) (s : CvSt) : StepCv :=
-  let s2 := cvSetDN o.Ns (cvAfterPasses p c s)
+/-- the part of one iteration after the passes (`s1` = state at the read point) -/
+def iterCvAfter (o : Oracle) (s1 : CvSt) : StepCv :=
+  let s2 := cvSetDN o.Ns s1
   if small s2.base then
     if o.conv || s2.base.L == s2.base.levelMax then .ret s2
     else cvLoopHead (cvExtendAll (cvSetDN o.Ns2 (cvAddLevel s2)))
   else cvLoopHead (cvExtendAll s2)
+
+/-- one iteration of the `while` loop of `Engine.price` with control variates configured -/
+def iterCv (p : Proc) (c : CvProc) (o : Oracle) (s : CvSt) : StepCv := iterCvAfter o (cvAfterPasses p c s)
 
 def runCv (p : Proc) (c : CvProc) : List Oracle → CvSt → StepCv
   | [], s => .cont s
@@ -146,7 +161,16 @@ def adjLvl (s : CvSt) (l : Nat) : Lvl := { s.base.lv l with rows := (s.cv l).adj
 def priceOfCv (s : CvSt) : Rat :=
   listSum ((List.range (s.base.L + 1)).map (fun l => meanOf rowFine (s.cv l).adj - meanOf rowCoarse (s.cv l).adj))
 
+/-- the states at the read points of a run with control variates, one per executed iteration; `ml, vl, cl` handed to the
+    criteria are `Mlmc.mlFed … (adjLvl r)` etc.: read from the adjusted arrays -/
+def readsCv (p : Proc) (c : CvProc) : List Oracle → CvSt → List CvSt
+  | [], _ => []
+  | o :: os, s =>
+    cvAfterPasses p c s :: (match iterCv p c o s with
+      | .cont s' => readsCv p c os s'
+      | .ret _ => [])
+
 /-- the exact one-control kernel of `helper_compute_coefficients` -/
-def coef1 : Nat → (Nat → Nat → Rat) → (Nat → Rat) → Nat → Rat := fun n x y _ => Stats.bStar n (x 0) y
+def coef1 : Stats.Kernel := Stats.kernel1
 
 end Rpylib.MlmcCv
